@@ -9,7 +9,7 @@ Definition nonl (s : str) : Prop := ~ In nl s.
 Lemma star_go_spec f s :
   star_go f s = true <-> exists a b, s = a ++ b /\ noslash a /\ f b = true.
 Proof.
-  induction s as [|x r IH]; cbn.
+  induction s as [|x r IH]; cbn; rewrite ?orl_spec, ?andl_spec.
   - rewrite orb_false_r. split.
     + intros H. exists [], []. repeat split; auto. intros [].
     + intros (a & b & E & _ & H). symmetry in E. apply app_eq_nil in E as [-> ->]. exact H.
@@ -28,7 +28,7 @@ Qed.
 Lemma dse_go_spec f s :
   dse_go f s = true <-> exists a b, s = a ++ b /\ nonl a /\ f b = true.
 Proof.
-  induction s as [|x r IH]; cbn.
+  induction s as [|x r IH]; cbn; rewrite ?orl_spec, ?andl_spec.
   - rewrite orb_false_r. split.
     + intros H. exists [], []. repeat split; auto. intros [].
     + intros (a & b & E & _ & H). symmetry in E. apply app_eq_nil in E as [-> ->]. exact H.
@@ -47,7 +47,7 @@ Qed.
 Lemma dss_go_spec f s :
   dss_go f s = true <-> exists a b, s = a ++ slash :: b /\ nonl a /\ f b = true.
 Proof.
-  induction s as [|x r IH]; cbn.
+  induction s as [|x r IH]; cbn; rewrite ?orl_spec, ?andl_spec.
   - split; [discriminate|]. intros (a & b & E & _). destruct a; discriminate.
   - rewrite orb_true_iff, !andb_true_iff, negb_true_iff, IH. split.
     + intros [[Hx Hf]|[Hx (a & b & -> & Ha & Hb)]].
@@ -124,11 +124,11 @@ Proof.
     specialize (IH Hl').
     destruct (atom_tok_cases a) as [(c & -> & Ht)|[[-> Ht]|[-> Ht]]].
     + assert (Hc : c <> slash) by (apply Hl; now left).
-      assert (Hgoal : (match s with x :: r => Ascii.eqb x c && tmatch (map atom_tok atoms ++ kt) r | [] => false end) = true <->
+      assert (Hgoal : (match s with x :: r => Ascii.eqb x c &&& tmatch (map atom_tok atoms ++ kt) r | [] => false end) = true <->
         exists g rest, s = g ++ rest /\ noslash g /\ amatch (ALit c :: atoms) g = true /\ tmatch kt rest = true).
       { destruct s as [|x s'].
         - split; [discriminate|]. intros (g & rest & E & _ & Hg & _). destruct g; [discriminate|discriminate].
-        - rewrite andb_true_iff, IH. split.
+        - rewrite andl_spec, andb_true_iff, IH. split.
           + intros [Hx (g & rest & -> & Hn & Hg & Hk)]. apply Ascii.eqb_eq in Hx. subst x.
             exists (c :: g), rest. repeat split; auto.
             * intros [E|Hin]; [congruence|now apply Hn].
@@ -139,7 +139,7 @@ Proof.
       cbn [map app]. destruct Ht as [-> | ->]; exact Hgoal.
     + cbn [map app]. rewrite Ht. cbn [tmatch]. destruct s as [|x s'].
       * split; [discriminate|]. intros (g & rest & E & _ & Hg & _). destruct g; discriminate.
-      * rewrite andb_true_iff, negb_true_iff, IH. split.
+      * rewrite andl_spec, andb_true_iff, negb_true_iff, IH. split.
         -- intros [Hx (g & rest & -> & Hn & Hg & Hk)].
            exists (x :: g), rest. repeat split; auto.
            intros [E|Hin]; [subst x; now rewrite Ascii.eqb_refl in Hx|now apply Hn].
@@ -323,7 +323,7 @@ Proof.
     + change (flatten (GDouble :: g2 :: pat)) with (TDSS :: flatten (g2 :: pat)).
       change (gmatch (GDouble :: g2 :: pat)) with (skip_go (gmatch (g2 :: pat))).
       cbn [tmatch]. apply bool_iff.
-      rewrite orb_true_iff, dss_go_spec, skip_go_spec. split.
+      rewrite orl_spec, orb_true_iff, dss_go_spec, skip_go_spec. split.
       * intros [H|(a & b & E & Ha & Hb)].
         -- exists [], segs. split; [reflexivity|]. rewrite <- IH; auto. discriminate.
         -- apply join_split_at in E as (s1 & s2 & -> & H1 & H2 & -> & ->); auto.
